@@ -49,13 +49,25 @@ theorem typing_invariant (ctx : Ctx)
     (s t : State) (hs : TyStateOK ctx s) (hstep : step ctx s = .next t) : TyStateOK ctx t :=
   ty_step (fun f hf => ⟨ssaCheck_facts (hm f hf).1, (hm f hf).2⟩) hs hstep
 
+/-- **load after store**: for `x := load (int t) p` preceded in its block by `store (int t) v p` with no
+    instruction in between that may write memory (`lasSrc`), `env x = env v` holds in every activation whose
+    program point the load strictly dominates, and between the store and the load the bytes at `p` are the
+    encoding of `v` (`LasStateOK`, memory-window invariant) — preserved by every step. -/
+theorem load_after_store_invariant (ctx : Ctx)
+    (hm : ∀ f ∈ ctx.mod.funcs, ssaCheck f (computeDoms f) = true ∧ tyCheck ctx.mod f = true)
+    (s t : State) (hty : TyStateOK ctx s) (hs : LasStateOK ctx s) (hstep : step ctx s = .next t) : LasStateOK ctx t :=
+  las_step (fun f hf => ⟨ssaCheck_facts (hm f hf).1, (hm f hf).2⟩) hty hs hstep
+
 /-- **substitution validator** (what `CommonSubexpressionEliminationPass`, `RemoveAddZeroPass` (integer types)
     and the `replace_by` half of `ConstantFolder` do): if `m'` is `m` with operands replaced by operands that `checkSubst` can justify from
     the equations of dominating pure instructions of `m` (same binop on justified-equal operands; equal
     constants; integer constant expressions with equal value; and, when the module passes `tyCheck`,
     `x := a + 0`, `x := 0 + a`, `x := a * 1` at integer types replaced by `a` — `RemoveAddZeroPass`), and
     conditional jumps on two known integer constants replaced by the jump they take (the folding decision
-    of `CJumpPass`; its subsequent pruning of phi inputs / unreachable blocks is not covered),
+    of `CJumpPass`; its subsequent pruning of phi inputs / unreachable blocks is not covered), and — again
+    under `tyCheck` — an integer load replaced by the operand of the latest store to the same address
+    operand in the same block with no store / call / CopyBlob / inline asm in between (the forwarding half of
+    `LoadAfterStorePass`),
     every defined behaviour is preserved. -/
 theorem subst_validator_sound (m m' : Module) (h : checkSubst m m' = true) (cfg : Config) :
     Preserves cfg m m' :=
@@ -109,6 +121,53 @@ theorem removeAddZero_partial (cfg : Config) (m m' : Module)
     (hp : applyPass (fun f => .ok (Model.Opt.removeAddZero f)) m = some m') (guard : checkSubst m m' = true) :
     Preserves cfg m m' := by
   have _ := hp; exact checkSubst_sound guard cfg
+
+/-- LoadAfterStore, forwarding half: `m₁` = the pass output with the removed stores put back; proved under the
+    guard `checkSubst m m₁`.  The store-removal half (`m₁ → m'`) is NOT proved: -/
+theorem loadAfterStore_forwarding_partial (cfg : Config) (m m1 : Module) (guard : checkSubst m m1 = true) :
+    Preserves cfg m m1 :=
+  checkSubst_sound guard cfg
+
+/-- not shown: removing a store that is overwritten by a later store to the same address operand and type with
+    no reader in between preserves behaviour (needs a simulation in which the two memories differ inside the
+    window) -/
+def deadStoreRemoval_full : Prop :=
+  ∀ (cfg : Config) (m m' : Module), wfModule m = true →
+    applyPass (fun f => .ok (Model.Opt.loadAfterStore f)) m = some m' → Preserves cfg m m'
+
+/-! ### `p + 0 → p` on pointers: why it is not justified, and the exact hypothesis under which it is
+
+At type `ptr` the addition is carried out in the unsigned integer type of pointer width (`cfg.ptrTy`), so
+`p + 0` evaluates to `wrap cfg.ptrTy p`.  Pointer *values* (addresses handed out by the layout and by `alloc`)
+are natural numbers that Spec.IR never wraps; with a 16-bit pointer configuration the address of the first
+global (`globBase = 0x100000`) does not fit, and `@g + 0` is a different value than `@g`.  With 64-bit pointers
+the rewrite is exact for every address below 2^64 — which is no theorem of Spec.IR either, because `alloc` may
+grow the stack without bound.  So the rule is proved under the explicit hypothesis "the pointer is in range",
+and is not used by the validator. -/
+
+theorem ptr_add_zero_of_inRange (cfg : Config) (x : Int) (h : Spec.IRArith.InRange cfg.ptrTy x) :
+    evalBinop cfg .ptr .add (.int x) (.int 0) = .ok (.int x) := by
+  simp only [evalBinop, intBinop_add_zero h]
+
+theorem ptr_mul_one_of_inRange (cfg : Config) (x : Int) (h : Spec.IRArith.InRange cfg.ptrTy x) :
+    evalBinop cfg .ptr .mul (.int x) (.int 1) = .ok (.int x) := by
+  simp only [evalBinop, intBinop_mul_one h]
+
+/-- with 16-bit pointers the address 0x100000 (the default `globBase`) plus 0 is 0 -/
+example : evalBinop { ptrSize := 2 } .ptr .add (.int 0x100000) (.int 0) = .ok (.int 0) := by rfl
+
+/-! ### statements that are NOT shown (CFG restructuring, mem2reg) -/
+
+/-- CleanPass.glue_blocks / remove_empty_blocks and the pruning half of CJumpPass change the block structure;
+    a validator `checkCfgEquiv` for them (block merge, empty-block bypass with phi re-keying, removal of
+    unreachable blocks) with a soundness theorem is not built.  Full statements: -/
+def cleanPass_full : Prop := clean_full
+def cjumpPrune_full : Prop := cjump_full
+
+/-- Mem2RegPromotor has no model; the statement that a promotion validator `check` (symbolic current value of
+    the slot per block, phi inputs agree on every edge) would have to satisfy: -/
+def promote_sound_full (check : Module → Module → Bool) : Prop :=
+  ∀ (cfg : Config) (m m' : Module), check m m' = true → Preserves cfg m m'
 
 /-- ConstantFolder: proved under the guard "`m₁` = `m` + the new constants passes `checkAlign`, and
     `checkSubst m₁ m'`" (fails for the chain rewrite `(y+c1)+c2` and pointer/float constants) -/
@@ -189,5 +248,20 @@ example :
       (mk [.const "z" i32 (.int 0), .binop "a" i32 .add (.loc "x") (.loc "z"), .binop "w" i32 .mul (.loc "a") (.loc "a"), .ret (.loc "w")])
       = some (mk [.const "z" i32 (.int 0), .binop "a" i32 .add (.loc "x") (.loc "z"), .binop "w" i32 .mul (.loc "x") (.loc "x"), .ret (.loc "w")])
     := by decide
+
+
+/-- load after store: `r := load p` after `store a p` is replaced by `a` -/
+example : checkSubst
+    (mk [.alloc "s" 4 4, .addrof "p" (.loc "s"), .store i32 (.loc "x") (.loc "p") false, .load "r" i32 (.loc "p") false,
+         .binop "w" i32 .add (.loc "r") (.loc "y"), .ret (.loc "w")])
+    (mk [.alloc "s" 4 4, .addrof "p" (.loc "s"), .store i32 (.loc "x") (.loc "p") false, .load "r" i32 (.loc "p") false,
+         .binop "w" i32 .add (.loc "x") (.loc "y"), .ret (.loc "w")]) = true := by decide
+
+/-- … but not across a CopyBlob, nor from a store of another width -/
+example : checkSubst
+    (mk [.alloc "s" 4 4, .addrof "p" (.loc "s"), .store i32 (.loc "x") (.loc "p") false, .copyblob (.loc "p") (.loc "p") 4,
+         .load "r" i32 (.loc "p") false, .binop "w" i32 .add (.loc "r") (.loc "y"), .ret (.loc "w")])
+    (mk [.alloc "s" 4 4, .addrof "p" (.loc "s"), .store i32 (.loc "x") (.loc "p") false, .copyblob (.loc "p") (.loc "p") 4,
+         .load "r" i32 (.loc "p") false, .binop "w" i32 .add (.loc "x") (.loc "y"), .ret (.loc "w")]) = false := by decide
 
 end Props.C02
